@@ -339,3 +339,23 @@ package table
 //@   safety off
 //@   at before call (*Reader).find#1
 //@     assert [C13,C16:exact-lookup-goes-through-the-unfiltered-search] sameslice(arg0, key) && !arg1 && arg2 == ro && !arg3
+
+// C13 (lookups inside a block): the binary search over the restart points answers with a restart point of the
+// searched range [rstart, rlimit) - the last one whose key is not above the sought key, or the first of the range when
+// all are above - and with the entry offset recorded for that restart point.
+//@ func (*block).seek
+//@   props C13 C02
+//@   safety off
+//@   requires 0 <= rstart && rstart <= rlimit && rlimit <= b.restartsLen && 0 <= b.restartsOffset && b.restartsOffset + 4*b.restartsLen <= len(b.data) && len(b.data) <= 1099511627776
+//@   ensures [C02,C13:the-restart-point-found-lies-in-the-searched-range] rstart <= index && (index < rlimit || index == rstart)
+//@   ensures [C02,C13:the-offset-is-the-one-recorded-for-that-restart-point] offset == le32(b.data, b.restartsOffset + 4*index)
+// (for restartIndex the recorded offsets are taken to increase with the restart point, as the writer emits them; a
+// block that passed its checksum is such a block)
+//@ func (*block).restartIndex
+//@   props C13 C02
+//@   safety off
+//@   requires [restart-offsets-increase] forall i, j int :: (0 <= i && i < j && j < rlimit - rstart) ==> le32(b.data, b.restartsOffset + 4*(rstart+i)) < le32(b.data, b.restartsOffset + 4*(rstart+j))
+//@   requires 0 <= rstart && rstart <= rlimit && rlimit <= b.restartsLen && 0 <= b.restartsOffset && b.restartsOffset + 4*b.restartsLen <= len(b.data) && len(b.data) <= 1099511627776
+//@   ensures [C02,C13:the-restart-point-of-an-offset-lies-in-the-searched-range] rstart - 1 <= result && result < rlimit || (rstart == rlimit && result == rstart - 1)
+//@   ensures [C02,C13:its-recorded-offset-is-not-above-the-given-one] (result >= rstart) ==> le32(b.data, b.restartsOffset + 4*result) <= offset
+//@   ensures [C02,C13:the-next-restart-point-is-above-the-given-offset] (result + 1 < rlimit) ==> le32(b.data, b.restartsOffset + 4*(result+1)) > offset
